@@ -641,7 +641,7 @@ def run_replays(pid, repo):
         modes.append((' (release)', {'VERIF_REPLAY_RELEASE': '1'}))
     for t0, (suffix, extra_env) in [(t, m) for m in modes for t in tests]:
         t = t0
-        p = subprocess.run([os.path.join(ROOT, 'tools', 'replay.sh'), repo, t], capture_output=True, text=True, env=dict(os.environ, **extra_env))
+        p = subprocess.run([os.path.join(ROOT, 'tools', 'replay.sh'), repo, t], capture_output=True, text=True, env=dict(os.environ, VERIF_TIER=TIER, **extra_env))
         t = t0 + suffix
         out = p.stdout + '\n' + p.stderr
         m = re.search(r'test result: (\w+)\. (\d+) passed; (\d+) failed', out)
